@@ -8,6 +8,7 @@ CONSTANTS
   VftTypes = {1, 2}
   FnKinds = {}
   FnOwners = {}
+  Twins = {"none"}
   TwoModules = FALSE
   Ptrs = {8}
 INVARIANTS Inv_Passes Replay
